@@ -156,12 +156,12 @@ impl<'a> Remote<'a> {
             if state.has_result() {
                 // It's waiting for us to stop. Finish setting waker here.
                 debug_assert!(state.is_completed());
-                state = self.header().state.finish_setting_waker::<false>();
+                state = self.leave_setting_waker(state);
 
                 continue;
             } else if state.is_cancelled() {
                 // The task was cancelled after last check
-                self.header().state.finish_setting_waker::<false>();
+                self.leave_setting_waker(state);
 
                 break Poll::Ready(None);
             } else if state.has_waker()
@@ -210,6 +210,21 @@ impl<'a> Remote<'a> {
             }
 
             break Poll::Pending;
+        }
+    }
+
+    /// Leave the waker-setting section without installing a waker. `state` is
+    /// the snapshot taken when the section was entered.
+    ///
+    /// A waker installed by an earlier poll is still in the slot. The executor
+    /// may have cleared HAS_WAKER in `Task::drop` and skipped the waker because
+    /// it saw the section open, so set the bit again: the waker is then dropped
+    /// together with the task instead of being leaked.
+    fn leave_setting_waker(&self, state: Snapshot) -> Snapshot {
+        if state.has_waker() {
+            self.header().state.finish_setting_waker::<true>()
+        } else {
+            self.header().state.finish_setting_waker::<false>()
         }
     }
 
